@@ -49,21 +49,52 @@ def check(F, rep):
             v = None
         rep.ob("threshold", v == want, path, "%s = %s (property: %d)" % (path.rsplit("::", 1)[-1], v, want), path.rsplit("::", 1)[-1] + "|value")
     # ---- the iteration source: non-relay entries of the map
-    filt = find_calls(f, "core::iter::traits::iterator::Iterator::filter")
-    okf = False
-    if len(filt) == 1:
-        c = _closure_of(F, f, filt[0][1]["args"][1])
-        src_ok = any(call_matches(t, r"HashMap::iter$") and copy_sources(f, op_base(t["args"][0])) == {("arg", 1, ())} for b, t in du.origin_calls(op_base(filt[0][1]["args"][0])))
-        if c is not None:
+    def relay_filter_closure(o):
+        c = _closure_of(F, f, o)
+        if c is None:
+            return False
+        cc = list(c.calls())
+        nots = [s_ for b_, i_, s_ in c.stmts() if s_["k"] == "a" and s_["lhs"]["l"] == 0 and s_["rv"]["k"] == "un" and s_["rv"].get("op") == "Not"]
+        ok = len(cc) == 1 and call_matches(cc[0][1], r"transports::Addr::is_relay$") and len(nots) == 1 and op_local(nots[0]["rv"]["a"]) == cc[0][1]["dest"]["l"]
+        if ok:
             rep.fn(c)
-            cc = list(c.calls())
-            nots = [s for b, i, s in c.stmts() if s["k"] == "a" and s["lhs"]["l"] == 0 and s["rv"]["k"] == "un" and s["rv"].get("op") == "Not"]
-            okf = src_ok and len(cc) == 1 and call_matches(cc[0][1], r"transports::Addr::is_relay$") and len(nots) == 1 and op_local(nots[0]["rv"]["a"]) == cc[0][1]["dest"]["l"]
-    rep.ob("candidates", okf, site(f, filt[0][0] if filt else None), "the paths considered are the map's entries filtered by `!addr.is_relay()`", skey(F, f, "non-relay-filter"))
+        return ok
+
+    def chain_info(l, depth=0):
+        """walk an iterator / collection value back to its root: (has !is_relay filter, root is the path map)"""
+        filt, root = False, False
+        for _ in range(12):
+            if l is None:
+                break
+            dc = def_call(f, l)
+            if dc is None:
+                nxt = None
+                for b_, i_, s_ in f.stmts():
+                    if s_["k"] == "a" and s_["lhs"] == {"l": l}:
+                        rv = s_["rv"]
+                        if rv["k"] == "use" and rv["o"]["k"] in ("copy", "move") and not rv["o"]["p"].get("p"):
+                            nxt = rv["o"]["p"]["l"]
+                        elif rv["k"] == "ref" and all(e[0] == "deref" for e in rv["p"].get("p", [])):
+                            nxt = rv["p"]["l"]
+                if nxt is None:
+                    root = copy_sources(f, l) == {("arg", 1, ())}
+                    break
+                l = nxt
+                continue
+            t = dc[1]
+            if call_matches(t, r"Iterator::filter$"):
+                filt = filt or relay_filter_closure(t["args"][1])
+                l = op_base(t["args"][0])
+            elif call_matches(t, r"IntoIterator::into_iter$|Iterator::collect$|Iterator::(map|enumerate|rev|by_ref|copied|cloned)$|slice::.*iter$|Vec::iter$|Deref::deref$"):
+                l = op_base(t["args"][0])
+            elif call_matches(t, r"HashMap::(iter|keys|values|iter_mut)$"):
+                root = copy_sources(f, op_base(t["args"][0])) == {("arg", 1, ())}
+                break
+            else:
+                break
+        return filt, root
+    filt = find_calls(f, "core::iter::traits::iterator::Iterator::filter")
     prim = None
-    for b, t in find_calls(f, "core::iter::traits::iterator::Iterator::collect"):
-        if filt and filt[0][1]["dest"]["l"] in chain_locals(f, op_base(t["args"][0])):
-            prim = t["dest"]["l"]
     # ---- pushes: only in the Unusable / Inactive arms of the status match over those entries
     sw = [x for x in enum_switches(F, f, STATUS)]
     rep.exact("candidates", "match on the path status", len(sw), 1)
@@ -72,13 +103,16 @@ def check(F, rep):
     lists = {}
     if sw:
         sb, pl, arms, other = sw[0]
-        # the matched place is `(*entry.1).status` with entry = next() of into_iter(non-relay list)
+        # the matched place is `(*entry.1).status` with entry = next() of an iterator over the
+        # map's entries that passed the `!addr.is_relay()` filter (collected first or not)
         its = copy_sources(f, pl["l"])
-        item_ok = prim is not None and bool(its) and all(x[0] == "call" and x[1].endswith("Iterator::next") for x in its)
+        item_ok = bool(its) and all(x[0] == "call" and x[1].endswith("Iterator::next") for x in its)
+        srcs_ok = []
         for b_, t_ in find_calls(f, "core::iter::traits::iterator::Iterator::next"):
-            ii = [def_call(f, x) for x in chain_locals(f, op_base(t_["args"][0])) if def_call(f, x) is not None]
-            item_ok = item_ok and any(call_matches(c[1], r"IntoIterator::into_iter$") and prim in chain_locals(f, op_base(c[1]["args"][0])) for c in ii)
-        rep.ob("candidates", item_ok, site(f, sb), "the status matched is that of an entry of the non-relay list", skey(F, f, "status-of-entry"))
+            if sb in f.reachable(b_) and f.dominates(b_, sb):
+                fl, rt = chain_info(op_base(t_["args"][0]))
+                srcs_ok.append(fl and rt)
+        rep.ob("candidates", item_ok and bool(srcs_ok) and all(srcs_ok), site(f, sb), "the entries whose status is matched are the map's entries filtered by `!addr.is_relay()`", skey(F, f, "non-relay-filter"))
         for b, t in pushes:
             arm = [v for v, tb in arms.items() if b in arm_region(f, sb, tb)]
             recv = arg_ref_target(f, t["args"][0])
@@ -97,9 +131,47 @@ def check(F, rep):
     failed, inactive = lists.get("Unusable"), lists.get("Inactive")
     # ---- retain removes exactly the prune set
     ret = find_calls(f, regex=r"HashMap::retain$")
-    rep.exact("candidates", "retain calls", len(ret), 1)
+    rems = [(b, t) for b, t in find_calls(f, regex=r"HashMap::remove$") if copy_sources(f, op_base(t["args"][0])) == {("arg", 1, ())}]
     so = find_calls(f, regex=r"^alloc::vec::Vec::split_off$")
     rep.exact("recency", "split_off calls", len(so), 1)
+    removal_sites = [b for b, t in ret] + [b for b, t in rems]
+    rep.ob("candidates", (len(ret) == 1 and not rems) or (not ret and len(rems) == 2), site(f), "entries are removed either by one retain(..) or by one remove loop per candidate list (%d retain, %d remove)" % (len(ret), len(rems)), skey(F, f, "removal-form"))
+    if rems and not ret and failed is not None:
+        kinds = []
+        for b, t in rems:
+            k = copy_sources(f, op_base(t["args"][1]))
+            okk = bool(k) and all(x[0] == "call" and x[1].endswith("Iterator::next") for x in k)
+            kind = "other"
+            for nb_, nt_ in find_calls(f, "core::iter::traits::iterator::Iterator::next"):
+                if b in f.reachable(nb_) and f.dominates(nb_, b) and okk:
+                    # root collection of this loop's iterator
+                    l = op_base(nt_["args"][0])
+                    for _ in range(10):
+                        dc = def_call(f, l) if l is not None else None
+                        if dc is not None and call_matches(dc[1], r"IntoIterator::into_iter$|slice::.*iter$|Vec::iter$|Deref::deref$|Iterator::map$"):
+                            l = op_base(dc[1]["args"][0])
+                            continue
+                        if dc is not None and call_matches(dc[1], r"Vec::split_off$"):
+                            kind = "split"
+                            break
+                        nxt = None
+                        for b_, i_, s_ in f.stmts():
+                            if s_["k"] == "a" and s_["lhs"] == {"l": l}:
+                                rv = s_["rv"]
+                                if rv["k"] == "use" and rv["o"]["k"] in ("copy", "move") and not rv["o"]["p"].get("p"):
+                                    nxt = rv["o"]["p"]["l"]
+                                elif rv["k"] == "ref" and all(e[0] == "deref" for e in rv["p"].get("p", [])):
+                                    nxt = rv["p"]["l"]
+                        if nxt is None:
+                            if l == failed:
+                                kind = "failed"
+                            break
+                        if nxt == failed or l == failed:
+                            kind = "failed"
+                            break
+                        l = nxt
+            kinds.append(kind)
+        rep.ob("candidates", sorted(kinds) == ["failed", "split"], site(f, rems[0][0]), "the removed keys are exactly the addresses of the failed list and of the split-off part of the closed list (%s)" % kinds, skey(F, f, "prune-set"))
     if ret:
         rb, rt = ret[0]
         rep.ob("candidates", copy_sources(f, op_base(rt["args"][0])) == {("arg", 1, ())}, site(f, rb), "retain is applied to the path map", skey(F, f, "retain-on-map"))
@@ -155,11 +227,25 @@ def check(F, rep):
                     kinds.append("other")
             oks = sorted(kinds) == ["failed", "split"] and not unknown
         # threshold
+        pass
+    if removal_sites:
+        rb = removal_sites[0]
         lts = []
         for cb, s_, ts in cmp_tests(f, ops=("Lt",)):
-            if s_["rv"]["b"]["k"] == "const" and s_["rv"]["b"].get("def") == MAXP and prim is not None and len_of(f, s_["rv"]["a"], r"Vec::len$") in chain_locals(f, prim) | {prim}:
+            if not (s_["rv"]["b"]["k"] == "const" and s_["rv"]["b"].get("def") == MAXP):
+                continue
+            al = op_base(s_["rv"]["a"])
+            dc = def_call(f, al) if al is not None else None
+            okc = False
+            if dc is not None and call_matches(dc[1], r"Vec::len$"):
+                fl, rt_ = chain_info(arg_ref_target(f, dc[1]["args"][0]))
+                okc = fl and rt_
+            elif dc is not None and call_matches(dc[1], r"Iterator::count$"):
+                fl, rt_ = chain_info(op_base(dc[1]["args"][0]))
+                okc = fl and rt_
+            if okc:
                 lts.append(ts)
-        rep.ob("threshold", len(lts) == 1 and requires_failure(f, rb, lts[0]), site(f, rb), "retain is reached only when `non_relay_paths.len() < MAX_NON_RELAY_PATHS` is false", skey(F, f, "threshold"))
+        rep.ob("threshold", len(lts) == 1 and all(requires_failure(f, x, lts[0]) for x in removal_sites), site(f, rb), "entries are removed only when `<number of non-relay paths> < MAX_NON_RELAY_PATHS` is false", skey(F, f, "threshold"))
     # ---- recency
     if so and inactive is not None:
         sb_, st = so[0]
